@@ -395,6 +395,8 @@ def _p1(ctx, g, x, root, fl):
     for n in g.nodes:
         if n.id not in g.live() or n.call is None or n.call['inlined'] is not None:
             continue
+        if n.call.get('how') == 'tail-recursion':
+            continue   # `return self.try_send(val)`: the next round of the same function, with the same payload
         for i, a in enumerate(g.call_args(n.id)):
             if g.strip(a) == payload and not (x.rep(n.id) in W and i == 1):
                 consumers.append(x.describe(n.id))
@@ -435,6 +437,11 @@ def _p2(ctx, g, x, root, fl, no_reader_bit):
         return inner[0] == 'call' and bool(re.search(r'Cell(::<.*>)?::get$', g.call_name(inner[1]) or '')) \
             and any('InnerSend.state' in p for p in g.locpaths(g.call_args(inner[1])[0]))
     uni_edges, _f, _h = x.eq_tests(lambda a_, b_: _is_state(a_) and is_const(b_, uni))
+    if len(vnames) == 2:
+        # two modes: "not Multi" (`if let Multi = state {..} else {..}`) is Uni
+        multi = str(vnames.index('Multi'))
+        _t, not_multi, _h2 = x.eq_tests(lambda a_, b_: _is_state(a_) and is_const(b_, multi))
+        uni_edges = set(uni_edges) | set(not_multi)
 
     def _is_writers(e_):
         return e_[0] == 'call' and x.rep(e_[1]) in x.atoms and x.atoms[x.rep(e_[1])].on('MultiQueue.writers') and x.atoms[x.rep(e_[1])].op == 'load'
